@@ -99,6 +99,7 @@ func (ps *SchemaSet) messageSchema(src protoreflect.MessageDescriptor) (RootSche
 		placeholder.To, err = schemaPackage.buildObjectSchema(src, msgOptions.GetObject())
 	}
 	if err != nil {
+		placeholder.To = nil // not a typed nil
 		return nil, err
 	}
 	return placeholder.To, nil
@@ -1180,6 +1181,7 @@ func buildMessageFieldSchema(pkg *Package, context fieldContext, src protoreflec
 			ref.To, err = pkg.buildObjectSchema(msg, msgOptions.GetObject())
 		}
 		if err != nil {
+			ref.To = nil // not a typed nil
 			return nil, err
 		}
 
